@@ -226,11 +226,14 @@ _dispatch_time_nanoseconds_since_epoch(dispatch_time_t when)
 	if (when == DISPATCH_TIME_FOREVER) {
 		return DISPATCH_TIME_FOREVER;
 	}
-	if ((int64_t)when < 0) {
+	dispatch_clock_t clock;
+	uint64_t value;
+	_dispatch_time_to_clock_and_value(when, &clock, &value);
+	if (clock == DISPATCH_CLOCK_WALL) {
 		// time in nanoseconds since the POSIX epoch already
-		return (uint64_t)-(int64_t)when;
+		return value;
 	}
 
-	// Up time or monotonic time.
+	// Up time or monotonic time (which also has its top bit set).
 	return _dispatch_get_nanoseconds() + _dispatch_timeout(when);
 }
